@@ -37,12 +37,19 @@ func NewNet() *Net { return &Net{nodes: map[string]*Node{}, port: 40000} }
 // NodeAddr is the address of node number id (1-based).
 func NodeAddr(id int) string { return fmt.Sprintf("10.1.%d.%d:18555", id/200, 1+id%200) }
 
-// Add registers a node; ids are 1-based positions.
-func (nt *Net) Add(c *Chain, b Behaviour) *Node {
+// Add registers a node at its default address; ids are 1-based positions.
+func (nt *Net) Add(c *Chain, b Behaviour) *Node { return nt.AddAt("", c, b) }
+
+// AddAt registers a node at the given "ip:port" ("" = NodeAddr(id)); several
+// nodes may share an IP on different ports.
+func (nt *Net) AddAt(addr string, c *Chain, b Behaviour) *Node {
 	nt.mu.Lock()
 	defer nt.mu.Unlock()
 	id := len(nt.order) + 1
-	n := NewNode(id, NodeAddr(id), c, b)
+	if addr == "" {
+		addr = NodeAddr(id)
+	}
+	n := NewNode(id, addr, c, b)
 	nt.nodes[n.Addr] = n
 	nt.order = append(nt.order, n)
 	return n
